@@ -517,6 +517,10 @@ def c15(ctx, replay):
 def c06(ctx, replay):
     inv = ["NeverDropped", "LineUntouched", "MalformedFlagged", "WellFormedNotFlagged", "OthersUntouched", "SomeIsRestriction"]
     mcs = [dict(name="extract", module="MC_Extract", consts=dict(MaxFields=2, Pools=V.tla_str(T(ctx, "quick", "full"))), invariants=inv, timeout=5400)]
+    # the regexp stage: leftmost-first submatches for every (expression, line) of the pools
+    mcs.append(dict(name="regexp", module="MC_Regexp", consts=dict(MaxLen=T(ctx, 3, 4), Pools=V.tla_str(T(ctx, "quick", "full"))),
+                    invariants=["WellFormed", "PrioAgreesWithEnds", "FoundIffSearch", "NeverDroppedNorChanged", "NoMatchNoChange", "GroupsAreSpans",
+                                "OthersUntouched", "OnlyGroups"]))
     return std(ctx, "C06", mc=mcs, harness_cmd="logq", harness_opts=["mode=extract"], trace_module="Trace_LogQuery",
                trace_consts=dict(CheckStreams=False), nrand=T(ctx, 3000, 40000), replay=replay, nontrivial=_lq_nontrivial, exhaustive=True,
                chunk_events=20000,
@@ -527,11 +531,11 @@ def c06(ctx, replay):
                     "untouched, requested field = restriction of full extraction; each case is replayed through Engine.Eval; random "
                     "driver: nested documents (depth 2), alternative encodings (whitespace, \\\\u escapes; asserted equal with "
                     "encoding/json), 5 malformed constructions, unpack with shuffled fields, logfmt with quoted values / field lists / "
-                    "renamed keys / malformed lines, pattern with 5 templates; TLC checks count, line and labels of every entry; "
+                    "renamed keys / malformed lines, pattern with 5 templates, regexp with random expressions of 1-3 named groups inside alternatives, options and repetitions; MC_Regexp: 7 (quick) / 11 (thorough) expression shapes x every line over {a,b,x} up to length 3 / 4 x {existing label a or not}, Prio (backtracking order) checked against the set-valued Ends; TLC checks count, line and labels of every entry; "
                     "non-trivial = distinct (records, stage)",
                assumptions=["text of nested values under json without arguments, labels extracted from the readable prefix of a malformed "
                             "line, a missing path (absent or empty) and the error details are left open",
-                            "the regexp stage is not modelled yet (named-group submatch semantics); JSON strings in cases avoid control bytes"])
+                            "regexp: repetition bodies consume at least one byte (RE2's treatment of empty iterations is not transcribed); a group that took no part in the match is left optional; JSON strings in cases avoid control bytes"])
 
 
 @prop("C07")
